@@ -3,6 +3,7 @@ package openapiv3
 import (
 	"fmt"
 	"strconv"
+	"strings"
 
 	"github.com/pb33f/libopenapi/datamodel/high/base"
 	yaml "go.yaml.in/yaml/v4"
@@ -120,20 +121,14 @@ func applyStringConstraints(constraints *validate.FieldRules, schema *base.Schem
 	if len(stringConstraints.GetIn()) > 0 {
 		schema.Enum = make([]*yaml.Node, 0, len(stringConstraints.GetIn()))
 		for _, value := range stringConstraints.GetIn() {
-			schema.Enum = append(schema.Enum, &yaml.Node{
-				Kind:  yaml.ScalarNode,
-				Value: value,
-			})
+			schema.Enum = append(schema.Enum, stringNode(value))
 		}
 	}
 
 	// Const value
 	if stringConstraints.HasConst() {
 		val := stringConstraints.GetConst()
-		schema.Const = &yaml.Node{
-			Kind:  yaml.ScalarNode,
-			Value: val,
-		}
+		schema.Const = stringNode(val)
 	}
 }
 
@@ -408,4 +403,17 @@ func checkIfFieldRequired(field *protogen.Field) bool {
 	}
 
 	return fieldConstraints.GetRequired()
+}
+
+// stringNode returns a YAML scalar that every reader takes as a string. The !!str tag makes the
+// encoder quote values that look like numbers, booleans or null; the YAML 1.1 boolean words, which
+// it leaves plain, are quoted explicitly because YAML 1.1 readers (and the JSON rendering) would
+// otherwise turn them into booleans.
+func stringNode(value string) *yaml.Node {
+	node := &yaml.Node{Kind: yaml.ScalarNode, Tag: "!!str", Value: value}
+	switch strings.ToLower(value) {
+	case "y", "n", "yes", "no", "on", "off":
+		node.Style = yaml.DoubleQuotedStyle
+	}
+	return node
 }
